@@ -13,8 +13,12 @@ EXTENDS Naturals, Integers, Sequences, FiniteSets, TLC, Json
 
 CONSTANTS Alphabet, MaxFields, MaxLev, MaxBox
 
-VARIABLES names, nlev, nbs, limit, mode, pc, lvl, exposed
-vvars == <<names, nlev, nbs, limit, mode, pc, lvl, exposed>>
+VARIABLES names, nlev, nbs, limit, mode, pc, lvl, exposed, keys
+vvars == <<names, nlev, nbs, limit, mode, pc, lvl, exposed, keys>>
+
+\* field keys: requirement KeysOk (a relation) and the constructor's numbering loop ImplKeys, on rendered strings so that a
+\* generated key can collide with a field really called "a_2" (the alphabet contains such names)
+K == INSTANCE FieldKeys WITH Numbering <- "first-free"
 
 NoLimit == 99
 Modes == {"full", "maxmins", "header_only"}
@@ -27,37 +31,23 @@ Init ==
   /\ limit \in {NoLimit} \cup 0..nlev
   /\ mode \in Modes
   /\ pc = "header" /\ lvl = 0
-  /\ exposed = [k |-> "none"]
+  /\ exposed = [k |-> "none"] /\ keys = <<>>
 
 (* ---- requirement ---- *)
-\* the i-th exposed key: the header name itself unless an earlier field already has it
-RECURSIVE CountBefore(_, _, _)
-CountBefore(s, i, x) == IF i = 0 THEN 0 ELSE (IF s[i] = x THEN 1 ELSE 0) + CountBefore(s, i - 1, x)
-FieldSpec(ns) == [i \in DOMAIN ns |-> [name |-> ns[i], repeat |-> CountBefore(ns, i - 1, ns[i]) > 0]]
 
 MetaSpec(ns, nl, lim, md) ==
   IF lim # NoLimit /\ lim > nl - 1 THEN [k |-> "err"]
   ELSE LET L == IF lim = NoLimit THEN nl - 1 ELSE lim
-       IN [k |-> "ok", fields |-> FieldSpec(ns), finest |-> nl - 1, limit |-> L,
+       IN [k |-> "ok", nfields |-> Len(ns), finest |-> nl - 1, limit |-> L,
            box_levels |-> L + 1,
            cell_levels |-> IF md = "header_only" THEN 0 ELSE L + 1,
            mm_levels |-> IF md = "maxmins" THEN L + 1 ELSE 0]
 
 (* ---- implementation-shaped steps of PlotfileCooker.__init__ ---- *)
-\* python dict insertion with the _2, _3 .. renaming loop (a renamed key may itself collide)
-RECURSIVE Keys(_, _)
-Keys(ns, i) ==
-  IF i = 0 THEN <<>>
-  ELSE LET prev == Keys(ns, i - 1)
-           taken == {prev[j].key : j \in DOMAIN prev}
-       IN Append(prev, [key |-> IF <<ns[i], 1>> \notin taken THEN <<ns[i], 1>>
-                                ELSE <<ns[i], CHOOSE n \in 2..(i + 1) : <<ns[i], n>> \notin taken
-                                                       /\ \A m \in 2..(n - 1) : <<ns[i], m>> \in taken>>])
-
 ParseHeader ==
   /\ pc = "header"
-  /\ exposed' = [k |-> "ok",
-                 fields |-> [i \in DOMAIN names |-> [name |-> names[i], repeat |-> Keys(names, Len(names))[i].key[2] > 1]],
+  /\ keys' = K!ImplKeys(names)
+  /\ exposed' = [k |-> "ok", nfields |-> K!DictSize(keys'),
                  finest |-> nlev - 1, limit |-> -1, box_levels |-> 0, cell_levels |-> 0, mm_levels |-> 0]
   /\ pc' = "limit"
   /\ UNCHANGED <<names, nlev, nbs, limit, mode, lvl>>
@@ -68,31 +58,34 @@ CheckLimit ==
      ELSE IF limit <= nlev - 1 THEN exposed' = [exposed EXCEPT !.limit = limit] /\ pc' = "boxes"
      ELSE exposed' = [k |-> "err"] /\ pc' = "done"
   /\ lvl' = 0
-  /\ UNCHANGED <<names, nlev, nbs, limit, mode>>
+  /\ UNCHANGED <<names, nlev, nbs, limit, mode, keys>>
 
 ReadBoxes ==
   /\ pc = "boxes"
   /\ exposed' = [exposed EXCEPT !.box_levels = @ + 1]
   /\ IF lvl < exposed.limit THEN lvl' = lvl + 1 /\ pc' = "boxes"
      ELSE lvl' = 0 /\ pc' = (IF mode = "header_only" THEN "done" ELSE "cells")
-  /\ UNCHANGED <<names, nlev, nbs, limit, mode>>
+  /\ UNCHANGED <<names, nlev, nbs, limit, mode, keys>>
 
 ReadCellH ==
   /\ pc = "cells"
   /\ exposed' = [exposed EXCEPT !.cell_levels = @ + 1,
                                 !.mm_levels = IF mode = "maxmins" THEN @ + 1 ELSE @]
   /\ IF lvl < exposed.limit THEN lvl' = lvl + 1 /\ pc' = "cells" ELSE lvl' = lvl /\ pc' = "done"
-  /\ UNCHANGED <<names, nlev, nbs, limit, mode>>
+  /\ UNCHANGED <<names, nlev, nbs, limit, mode, keys>>
 
 Next == ParseHeader \/ CheckLimit \/ ReadBoxes \/ ReadCellH
 Spec == Init /\ [][Next]_vvars
 
-MetaRefines == pc = "done" => exposed = MetaSpec(names, nlev, limit, mode)
+MetaRefines == pc = "done" => /\ exposed = MetaSpec(names, nlev, limit, mode)
+                              /\ (exposed.k = "ok" => K!KeysOk(names, keys))
 \* header-only opening never touches a level header
 HeaderOnlyNeedsNoLevels == mode = "header_only" => pc # "cells"
 
 Sig == <<nlev, IF limit = NoLimit THEN "nolimit" ELSE IF limit > nlev - 1 THEN "above" ELSE IF limit = nlev - 1 THEN "finest" ELSE "lower",
-         mode, IF \E i, j \in DOMAIN names : i # j /\ names[i] = names[j] THEN "repeats" ELSE "distinct">>
+         mode, IF \E i, j \in DOMAIN names : i # j /\ names[i] = names[j] THEN "repeats" ELSE "distinct",
+         IF \E i, j \in DOMAIN names : i # j /\ names[i] # names[j] /\ names[i] \in {K!Render(names[j], k) : k \in 2..(Len(names) + 1)}
+         THEN "generated-name-present" ELSE "plain">>
 Scenario == [prop |-> "C02", sig |-> Sig, names |-> names, nlev |-> nlev, nbs |-> [l \in 1..nlev |-> nbs[l]],
              limit |-> limit, mode |-> mode, expect |-> MetaSpec(names, nlev, limit, mode)]
 Emit == pc = "done" => PrintT(ToJson(Scenario))
